@@ -23,3 +23,27 @@ Proof. reflexivity. Qed.
 (* the buffer size of connection.reader is the one the C09 witnesses and the harness use *)
 Theorem mem_read_buffer_ok : gen_read_buffer_size = 1023.
 Proof. reflexivity. Qed.
+
+(* the variants that stand for "the current code" in Model/Mem.v and Model/HdrMem.v are what the
+   translator reads in the source now (translator/main.go ownershipShapes): the fast path decodes a
+   clone of the read and a consumed history becomes nil (adede50); every frame is decoded into a
+   fresh JTMessage; the timeout record (4b6a3bd), the merged message (a3fb0a0) and the session
+   (052add1: the header connection.onActiveEvent writes for platform commands, never a delivered one)
+   hold deep copies of the header - Header struct and BodyProperty *)
+From JT.Model Require Import HdrMem.
+
+Theorem mem_variant_ok : cur = {| v_clone := gen_fastpath_clones; v_nil := gen_history_nil |}.
+Proof. reflexivity. Qed.
+
+Definition share_of_gen (n : N) : share := match n with 0 => Shared | 1 => Shallow | _ => Deep end.
+
+Theorem hdr_variant_ok :
+  hcur = {| hv_rec := share_of_gen gen_record_header_share; hv_merge := share_of_gen gen_merged_header_share |} /\
+  gen_record_header_share <= 2 /\ gen_merged_header_share <= 2.
+Proof. repeat split; discriminate. Qed.
+
+Theorem decode_fresh_ok : gen_decode_fresh = true.
+Proof. reflexivity. Qed.
+
+Theorem session_header_own_ok : share_of_gen gen_session_header_share = Deep /\ gen_session_header_share <= 2.
+Proof. split. reflexivity. discriminate. Qed.
